@@ -4,6 +4,9 @@
 //   - the SIMD lane contracts T2 (discharged on the real sonic-simd code by Kani, property C17),
 //   - the Reader contract T1 (discharged on the real `impl Reader for Read` by Kani).
 
+// T6: x86-64 target
+global size_of usize == 8;
+
 #[derive(Debug, PartialEq, Eq)]
 pub enum ErrorCode {
     Message, Io, EofWhileParsing, ExpectedColon, ExpectedArrayCommaOrEnd, ExpectedObjectCommaOrEnd,
